@@ -670,7 +670,13 @@ impl fmt::Display for XmlAttribute {
             value.push_str(&format!("{}", v));
         }
 
-        write!(f, "{}={}", self.local_name.as_str(), escape(value.as_str()))
+        if value.contains('"') && value.contains('\'') {
+            // neither quote can delimit a value that holds both (reachable by editing its text).
+            let value = value.replace('"', "&quot;");
+            write!(f, "{}=\"{}\"", self.local_name.as_str(), value)
+        } else {
+            write!(f, "{}={}", self.local_name.as_str(), escape(value.as_str()))
+        }
     }
 }
 
